@@ -292,6 +292,7 @@ func Main(args []string) {
 			"what is recorded is read from the git objects by a reader written from the documented format, not by git-bug's entity reader",
 			"what a bug prefix or combined comment-id prefix denotes is decided by an independent resolution over the initial population (string prefix over all bug ids / all combined comment ids): exactly one match => that bug/comment is the target; none or several => the request must be refused and change nothing, with and without a user",
 "the real command part starts the git-bug binary built from the tree under test (`webui --no-open --port <free> [--read-only]`) on copies of the same world with {user identity configured, none configured, configured id missing locally} and talks real HTTP to it: introspection, the read query, one well-formed request per mutation, one upload; it is stopped with SIGTERM. A read-only web UI must serve in all three configurations and leave refs, objects, clocks, the local configuration and the cache answers unchanged; read-write with a configured user must carry out every request authored by that user; read-write without a usable user may refuse to start (its tidying of its own dangling git-bug.identity key is noted, not judged)",
+"text arguments (titles, messages, labels) include a 'kept characters' class (U+00A0, U+202F, U+3000, ZWJ in an emoji family, ZWNJ between Persian letters, soft hyphen, U+2028/U+2029, private use, BOM in the middle, also at the two ends); what must be recorded and returned is the documented clean-up written independently in the harness (refClean: CRLF->LF, unicode.IsControl characters dropped except \\n and \\t in multi-line text, strings.TrimSpace at the ends), everything else verbatim",
 			"with a user, only requests whose prefix resolves uniquely, whose other arguments are valid catalogue values and that ask for an actual change must succeed; for other arguments the statement is silent and the oracle only requires: error => nothing changed, no error => append-only, authored by the user, one bug, returned bug = changed bug",
 		},
 		WallS: time.Since(start).Seconds(), Violations: rep.Viol, Known: rep.KnownSeen()}
